@@ -224,7 +224,16 @@ class FunctionValue:
             if p in kwargs:
                 env[p] = kwargs[p]
             elif p in dmap:
-                env[p] = self.ev.eval(dmap[p], self.genv)
+                if isinstance(dmap[p], ast.Constant):
+                    env[p] = dmap[p].value
+                else:
+                    # a default value is computed once, when the function is defined, and the same object serves every later call;
+                    # here: on the first call that needs it, in the globals of that moment, and kept for this world
+                    memo = self.genv.setdefault("__defaults__", {})
+                    key = (id(fn), p)
+                    if key not in memo:
+                        memo[key] = self.ev.eval(dmap[p], self.genv)
+                    env[p] = memo[key]
             else:
                 raise Undecided(f"missing argument {p} for {fn.name}")
         isgen = _GEN.get(id(fn))
@@ -1296,6 +1305,22 @@ def _sum(xs: Any, start: Any = 0) -> Any:
     return acc
 
 
+_CLASS_TAGS: Dict[str, "Tag"] = {}
+
+
+def _type(x: Any) -> Any:
+    """type(x) for plain values: the very object the name `int` / `bool` / ... evaluates to here, so `type(x) is int` is exact"""
+    for t, nm in ((bool, "bool"), (int, "int"), (float, "float"), (str, "str"), (list, "list"), (tuple, "tuple"), (dict, "dict"), (set, "set")):
+        if isinstance(x, t):
+            return BUILTINS[nm]
+    if x is None:
+        return _CLASS_TAGS.setdefault("NoneType", Tag("NoneType"))
+    if isinstance(x, Obj) and isinstance(x.attrs.get("__class__"), str):
+        # an instance of a repository class: one token per class (never identical to a builtin type)
+        return _CLASS_TAGS.setdefault(x.attrs["__class__"], Tag("class " + x.attrs["__class__"]))
+    raise Undecided("type() of an abstract value")
+
+
 def _prod(xs: Any, start: Any = 1) -> Any:
     acc = start
     for x in xs:
@@ -1354,7 +1379,8 @@ BUILTINS: Dict[str, Callable[..., Any]] = {
     "all": lambda xs: all(xs),
     "any": lambda xs: any(xs),
     "int": lambda x, *b: _int(x, *b),
-    "bool": lambda x: bool(x) if isinstance(x, (int, bool)) else (_ for _ in ()).throw(Undecided("bool()")),
+    "bool": lambda x=False: bool(x) if isinstance(x, (int, bool, str, list, tuple, dict, set, frozenset, float, type(None))) else
+    (_ for _ in ()).throw(Undecided("bool()")),
     "str": lambda x: (str(bool(x)) if isinstance(x, bool) else str(int(x)) if isinstance(x, int) else x) if isinstance(x, (int, str)) else
     (_ for _ in ()).throw(Undecided("str()")),
     "dict": lambda *a, **k: dict(*a, **k),
@@ -1388,7 +1414,19 @@ BUILTINS: Dict[str, Callable[..., Any]] = {
     "product": lambda *xs, repeat=1: [tuple(t) for t in itertools.product(*[list(x) for x in xs], repeat=repeat)],
     "combinations": lambda xs, r: [tuple(t) for t in itertools.combinations(list(xs), r)],
     "getattr": lambda o, name, *d: _getattr(o, name, *d),
+    "string.hexdigits": "0123456789abcdefABCDEF",  # type: ignore[dict-item]
+    "string.digits": "0123456789",  # type: ignore[dict-item]
+    "string.ascii_lowercase": "abcdefghijklmnopqrstuvwxyz",  # type: ignore[dict-item]
+    "string.ascii_uppercase": "ABCDEFGHIJKLMNOPQRSTUVWXYZ",  # type: ignore[dict-item]
+    "string.ascii_letters": "abcdefghijklmnopqrstuvwxyzABCDEFGHIJKLMNOPQRSTUVWXYZ",  # type: ignore[dict-item]
+    "string.octdigits": "01234567",  # type: ignore[dict-item]
+    "urllib.parse.unquote": _strfn(__import__("urllib.parse").parse.unquote),
+    "urllib.parse.unquote_plus": _strfn(__import__("urllib.parse").parse.unquote_plus),
+    "urllib.parse.quote": _strfn(__import__("urllib.parse").parse.quote),
+    "unquote": _strfn(__import__("urllib.parse").parse.unquote),
+    "unquote_plus": _strfn(__import__("urllib.parse").parse.unquote_plus),
     "hasattr": lambda o, name: _hasattr(o, name),
+    "type": lambda x: _type(x),
     "functools.reduce": lambda f, xs, *init: __import__("functools").reduce(f, list(xs), *init),
     "cast": lambda t, v: v,
     "typing.cast": lambda t, v: v,
